@@ -1,25 +1,45 @@
 """C06: the C++ and the Python parser accept the same programs and build the same rules."""
 import json
+import os
 
-from lv import core, noise, parsers, syntaxgen
+from lv import core, noise, parsers, syntaxgen, syntaximport
 
 ID = 'C06'
 BUDGET = {'quick': 2400, 'thorough': 60000}     # generated programs; ~4 texts each
 WALL = {'quick': 600, 'thorough': 3600}
 RULE = ('programs of the syntactic grammar generator lv/syntaxgen.py (every statement, '
-        'literal, operator and denotation form of docs/syntax.md; no imports yet); each '
-        'program yields 4 texts: base print, a layout variant (whitespace / comments at '
-        'token boundaries, redundant parentheses, trailing ;) and one single-token '
-        'corruption of each from the fixed catalogue in lv/noise.py. Every text is parsed '
+        'literal, operator and denotation form of docs/syntax.md plus the forms of the '
+        'repository\'s own programs); each program yields 4 texts: base print, a layout '
+        'variant (whitespace / comments at token boundaries, redundant parentheses, '
+        'trailing ;) and one single-token corruption of each from the fixed catalogue in '
+        'lv/noise.py; roughly one program in eight is the main file of a generated import tree '
+        '(lv/syntaximport.py: files in a run-private temporary directory, import .. [as ..], '
+        'nested and shared imports, and the import-level corruptions: missing file, '
+        'undefined / unused predicate, cycle, duplicated `as`). Every text is parsed '
         'with LOGICA_PARSER=PY and =CPP in one process: both accept => rule lists equal '
-        '(order, HeritageAwareString as text); both reject (internal Python exception = '
+        '(main-file rules in order, rules of imported files as a multiset; '
+        'HeritageAwareString as text, and where both trees carry a span, the same span of '
+        'the same statement text); both reject (internal Python exception = '
         'reject, tallied); anything else is a failure. Non-trivial: accepted text with '
         '>= 2 rules of which >= 1 has a body, or a corrupted text rejected by both whose '
-        'uncorrupted source was accepted; distinct by hash of the text.')
+        'uncorrupted source was accepted; distinct by hash of the text (and files).')
 ASSUMPTIONS = ['the shared object is built by lv/cppbuild.py from the current '
                'parser_cpp/logica_parse.cpp with the bridge\'s own compiler flags',
-               'parse.ParseFile(text)["rule"] is the observation point for both parsers',
-               'a Python-internal exception (not ParsingException) counts as rejection']
+               'parse.ParseFile(text, import_root=dir)["rule"] is the observation point '
+               'for both parsers',
+               'a Python-internal exception (not ParsingException) counts as rejection',
+               'the domain of the undocumented forms (order_by/limit denotations, \'..\' and '
+               '""".."" literals, Op{..}, l[i]) is what the repository\'s own programs use, '
+               'widened where both parsers agree (see the DOMAIN RESTRICTION notes in '
+               'lv/syntaxgen.py)']
+
+# FINDING cpp_array_subscript_heritage (C15 and C06, C++ parser only): the array
+# expression of `l[i]` gets a heritage of its own (the text `l`, span 0..1) instead of
+# its span in the statement (ParseArraySub builds a fresh SpanString from the name).
+# While the exclusion is on, the span comparison skips exactly that node (counted).
+EXCLUDE_ARRAYSUB_SPAN = syntaxgen.excluded('ARRAYSUB_SPAN')
+KEY_ARRAYSUB = 'cpp_array_subscript_heritage'
+IMPORT_SHARE = 4            # one generated program in IMPORT_SHARE is an import tree
 
 
 def pieces_of(cell_texts, cells, tail):
@@ -67,37 +87,142 @@ def _null_call(tree):
     return False
 
 
-def verdict(text):
-    """-> (failures [(bucket, detail)], info)"""
-    res = parsers.parse_both(text)
+def compare_rules(a, b, n_files):
+    """-> None | (bucket, path, x, y).  a, b: plain rule lists (PY, CPP).
+    n_files None (no imports): the lists must be equal.  Otherwise n_files = k, the
+    number of main-file rules: the first k rules must be equal in order, the rest (rules
+    of imported files, which the two parsers emit in different file orders) must be
+    equal as multisets of canonical JSON."""
+    if n_files is None:
+        if a != b:
+            d = parsers.first_diff(a, b)
+            return ('tree_differs:' + parsers.path_class(d[0]),) + tuple(d)
+        return None
+    k = n_files
+    if len(a) != len(b):
+        return ('tree_differs:number_of_rules', '/len', len(a), len(b))
+    if a[:k] != b[:k]:
+        d = parsers.first_diff(a[:k], b[:k])
+        return ('tree_differs:main:' + parsers.path_class(d[0]),) + tuple(d)
+    ca = sorted(json.dumps(r, sort_keys=True, default=str) for r in a[k:])
+    cb = sorted(json.dumps(r, sort_keys=True, default=str) for r in b[k:])
+    if ca != cb:
+        only_a = [x for x in ca if x not in cb]
+        only_b = [x for x in cb if x not in ca]
+        return ('tree_differs:imported_rules', '/imported',
+                (only_a or ['<multiplicity>'])[0][:600],
+                (only_b or ['<multiplicity>'])[0][:600])
+    return None
+
+
+def verdict(text, import_root=None, main_rules=None):
+    """-> (failures [(bucket, detail)], info).
+    import_root: directory of the generated file tree (None: no imports);
+    main_rules: number of rules the main file contributes (imports only)."""
+    res = parsers.parse_both(text, import_root)
     (ps, pp), (cs, cp) = res['PY'], res['CPP']
-    info = {'py': ps, 'cpp': cs}
+    info = {'py': ps, 'cpp': cs, 'excluded': []}
     fails = []
     if ps == 'ok' and cs == 'ok':
         a, b = parsers.plain(pp), parsers.plain(cp)
         info['n_rules'] = len(a)
         info['has_body'] = any('body' in r for r in a if isinstance(r, dict))
-        if a != b:
-            d = parsers.first_diff(a, b)
-            bucket = 'tree_differs:' + parsers.path_class(d[0])
-            fails.append((bucket, 'first difference at %s\n  PY : %s\n  CPP: %s\ntext:\n%s' % (
-                d[0], json.dumps(d[1], default=str)[:600],
-                json.dumps(d[2], default=str)[:600], text)))
+        d = compare_rules(a, b, main_rules if import_root is not None else None)
+        if d:
+            fails.append((d[0], 'first difference at %s\n  PY : %s\n  CPP: %s\ntext:\n%s' % (
+                d[1], json.dumps(d[2], default=str)[:600],
+                json.dumps(d[3], default=str)[:600], text)))
+        elif import_root is None:
+            fails += span_failures(pp, cp, text, info)
     elif ps != 'ok' and cs != 'ok':
         info['py_msg'] = pp
     elif ps == 'ok':
         bucket = 'py_accepts_cpp_%s:%s' % (cs, cp)
+        if (cs, cp) == ('reject', 'Could not parse proposition.') and \
+                noise.combine_empty_body(text):
+            bucket = 'combine_empty_body'
         fails.append((bucket, 'Python parser accepts, C++ parser: %s (%s)\ntext:\n%s' % (
             cs, cp, text)))
     else:
         bucket = 'cpp_accepts_py_%s:%s' % (ps, pp)
+        # the signatures of the recorded findings get their key as the bucket
         if _pipe_operator(cp):
-            bucket += ':pipe_operator'
-        if _null_call(cp):
-            bucket += ':null_call'
+            bucket = 'pipe_eq_operator'
+        elif (ps, pp) == ('internal', 'TypeError:parse.py:ShiftArgs'):
+            bucket = 'denotation_named_argument'
+        elif (ps, pp) == ('internal', 'SyntaxError:parse.py:ParseString') and \
+                noise.quote_literal_not_python(text):
+            bucket = 'quote_literal_not_python'
+        elif _null_call(cp):
+            bucket = 'cpp_empty_array_subscript'
         fails.append((bucket, 'C++ parser accepts, Python parser: %s (%s)\ntext:\n%s' % (
             ps, pp, text)))
     return fails, info
+
+
+def span_failures(pp, cp, text, info):
+    """Where both trees carry a HeritageAwareString, it must be the same span of the
+    same statement text."""
+    fails = []
+    seen = set()
+    for path, x, y in parsers.span_pairs(pp, cp, []):
+        if (x.start, x.stop, x.heritage) == (y.start, y.stop, y.heritage):
+            continue
+        if parsers.is_array_operand(cp, path) and y.heritage == str(y):
+            if EXCLUDE_ARRAYSUB_SPAN:
+                if 'finding:' + KEY_ARRAYSUB not in info['excluded']:
+                    info['excluded'].append('finding:' + KEY_ARRAYSUB)    # once per text
+                continue
+            bucket = KEY_ARRAYSUB
+        else:
+            bucket = 'span_differs:' + parsers.path_class(path)
+        if bucket in seen:
+            continue
+        seen.add(bucket)
+        fails.append((bucket, 'node %s = %r: span PY [%d:%d] of %r, CPP [%d:%d] of %r\n'
+                      'text:\n%s' % (path, str(x), x.start, x.stop, x.heritage[:200],
+                                     y.start, y.stop, y.heritage[:200], text)))
+    return fails
+
+
+def evaluate(case):
+    """-> (fails, info) for one stored case.  A case whose text contains the input
+    class of a layout finding carries `alt`: {finding key(s): pieces of the same text
+    without that layout}; a failure that disappears there is the finding's."""
+    if case.get('files') is not None:
+        return syntaximport.evaluate(case, verdict, attribute_layout)
+    text = case['text'] if 'text' in case else ''.join(case['pieces'])
+    fails, info = verdict(text)
+    return attribute_layout(case, fails, lambda t: verdict(t)[0]), info
+
+
+def attribute_layout(case, fails, fails_of):
+    """A failure that disappears in the text without the layout of a recorded finding
+    is that finding's (cpp_array_subscript_heritage is a property of the program, not
+    of the layout: it stays as it is)."""
+    layout_fails = [f for f in fails if f[0] != KEY_ARRAYSUB]
+    if not layout_fails or not case.get('alt'):
+        return fails
+    for key in sorted(case['alt'], key=lambda k: (k.count('+'), k)):
+        f2 = fails_of(''.join(case['alt'][key]))
+        if not [f for f in f2 if f[0] != KEY_ARRAYSUB]:
+            bucket = key if '+' not in key else 'layout:quirk:' + key
+            return [f for f in fails + f2 if f[0] == KEY_ARRAYSUB][:1] + [
+                (bucket, 'fails only with the layout of %s (%s):\n%s' % (
+                    key, ', '.join(sorted(set(b for b, _ in layout_fails))),
+                    layout_fails[0][1]))]
+    return fails
+
+
+def alt_pieces(r):
+    """{key: pieces} of the rendering r without the layout of the findings it touches."""
+    risks = r.risks()
+    if not risks:
+        return None
+    out = {k: rendered_pieces(r.without([k])) for k in risks}
+    if len(risks) > 1:
+        out['+'.join(risks)] = rendered_pieces(r.without(risks))
+    return out
 
 
 def make_texts(rng, salt=0):
@@ -108,79 +233,107 @@ def make_texts(rng, salt=0):
                          p_paren=[0.0, 0.1, 0.3][rng.randrange(3)],
                          trailing=rng.random() < 0.5)
     excluded = dict(excl)
-    for k in ('excluded_den_paren',):
-        if noisy.stats.get(k):
-            excluded['C15_' + k] = noisy.stats[k]
+    if noisy.stats.get('excluded_den_paren'):
+        excluded['finding:' + noise.RISK_DEN] = noisy.stats['excluded_den_paren']
     cases = [{'kind': 'base', 'pieces': rendered_pieces(base), 'corruption': None},
              {'kind': 'noisy', 'pieces': rendered_pieces(noisy), 'corruption': None,
               'noise': {k: v for k, v in noisy.stats.items()}}]
+    alt = alt_pieces(noisy)
+    if alt:
+        cases[1]['alt'] = alt
     for src, r in (('base', base), ('noisy', noisy)):
         c = noise.pick_corruption(r.cells, rng, salt)
         salt += 7
         if c is None:
             continue
         ex = noise.excluded_class(r.cells, c)
+        if ex is None and src == 'noisy' and alt:
+            # only with a layout exclusion switched off: a corruption on top of the
+            # finding's layout would be reported under the corruption's name
+            ex = 'option:no_corruption_of_finding_layout'
         if ex:
             excluded[ex] = excluded.get(ex, 0) + 1
             continue
         texts = noise.apply_corruption_cells(r, c)
-        cases.append({'kind': 'corrupt', 'of': src,
-                      'pieces': pieces_of(texts, r.cells, r.tail[0]),
+        pieces = pieces_of(texts, r.cells, r.tail[0])
+        k = noise.excluded_text(''.join(pieces))
+        if k:
+            excluded[k] = excluded.get(k, 0) + 1
+            continue
+        cases.append({'kind': 'corrupt', 'of': src, 'pieces': pieces,
                       'corruption': [c[0], c[2], r.cells[c[1]][2].text]})
     return cases, sorted(feats), excluded
 
 
+def record(col, case, fails, info, labels, accepted):
+    kind = case['kind']
+    text = case.get('key') or ''.join(case['pieces'])
+    labels = list(labels) + ['kind:' + kind]
+    both_ok = info['py'] == 'ok' and info['cpp'] == 'ok'
+    both_rej = info['py'] != 'ok' and info['cpp'] != 'ok'
+    if both_ok:
+        labels.append('both_accept')
+    elif both_rej:
+        labels.append('both_reject')
+        if info['py'] == 'internal':
+            labels.append('py_internal:' + info['py_msg'])
+        if info['cpp'] == 'internal':
+            labels.append('cpp_internal')
+    for k in info.get('excluded', []):
+        col.exclude(k)
+    accepted[kind] = both_ok
+    if case.get('corruption'):
+        labels.append('corr:' + case['corruption'][0])
+        flipped = accepted.get(case.get('of')) and both_rej
+        if flipped:
+            labels.append('corr_flipped_verdict')
+        elif accepted.get(case.get('of')) and both_ok:
+            labels.append('corr_still_accepted')
+        nt = bool(flipped)
+    else:
+        nt = (not fails and info.get('n_rules', 0) >= 2 and bool(info.get('has_body')))
+    if fails:
+        labels.append('failed')
+        nt = False
+    sample = {'kind': kind, 'corruption': case.get('corruption'),
+              'text': ''.join(case['pieces']), 'py': info['py'], 'cpp': info['cpp']}
+    if case.get('files') is not None:
+        sample['files'] = case['files']
+    col.case(text, nt, labels, sample=sample)
+    for bucket, detail in fails:
+        stored = {k: v for k, v in case.items() if k not in ('noise', 'of', 'key')}
+        col.fail(bucket, stored, detail)
+
+
 def shard(ctx, col):
     parsers.setup()
-
     counter = [0]
 
     def one(rng):
         counter[0] += 1
-        cases, feats, excluded = make_texts(rng, counter[0])
+        # (a Hypothesis draw, not the counter: the draw sequence must be a function of
+        # the drawn values alone)
+        if rng.randrange(IMPORT_SHARE) == 0:
+            cases, feats, excluded = syntaximport.make_cases(rng, counter[0])
+        else:
+            cases, feats, excluded = make_texts(rng, counter[0])
         for k, v in excluded.items():
-            col.excluded[k] += v
+            for _ in range(v):
+                col.exclude(k)
         accepted = {}
         for case in cases:
-            text = ''.join(case['pieces'])
-            fails, info = verdict(text)
-            kind = case['kind']
-            labels = ['kind:' + kind]
-            if info['py'] == 'ok' and info['cpp'] == 'ok':
-                labels.append('both_accept')
-            elif info['py'] != 'ok' and info['cpp'] != 'ok':
-                labels.append('both_reject')
-                if info['py'] == 'internal':
-                    labels.append('py_internal:' + info['py_msg'])
-                if info['cpp'] == 'internal':
-                    labels.append('cpp_internal')
-            if kind == 'base':
+            fails, info = evaluate(case)
+            labels = []
+            if case['kind'] in ('base', 'tree'):
                 labels += ['feat:' + f for f in feats]
-            if kind == 'noisy':
+            if case['kind'] == 'noisy':
                 labels += ['noise:' + k for k, v in case['noise'].items()
                            if v and not k.startswith('excluded')]
-            accepted[kind] = info['py'] == 'ok' and info['cpp'] == 'ok'
-            if kind == 'corrupt':
-                labels.append('corr:' + case['corruption'][0])
-                flipped = accepted.get(case['of']) and info['py'] != 'ok' and \
-                    info['cpp'] != 'ok'
-                if flipped:
-                    labels.append('corr_flipped_verdict')
-                elif accepted.get(case['of']) and accepted[kind]:
-                    labels.append('corr_still_accepted')
-                nt = bool(flipped)
-            else:
-                nt = (not fails and info.get('n_rules', 0) >= 2 and info.get('has_body'))
-            if fails:
-                labels.append('failed')
-                nt = False
-            col.case(text, nt, labels,
-                     sample={'kind': kind, 'corruption': case['corruption'], 'text': text,
-                             'py': info['py'], 'cpp': info['cpp']})
-            for bucket, detail in fails:
-                col.fail(bucket, {'kind': kind, 'pieces': case['pieces'],
-                                  'corruption': case['corruption']}, detail)
-    core.hyp_run(one, core_strategy(), ctx.budget, ctx.hyp_seed)
+            record(col, case, fails, info, labels, accepted)
+    try:
+        core.hyp_run(one, core_strategy(), ctx.budget, ctx.hyp_seed)
+    finally:
+        syntaximport.cleanup()
 
 
 def core_strategy():
@@ -189,9 +342,19 @@ def core_strategy():
 
 
 def check_case(case):
+    """`with_findings`: [keys] in a stored case switches the named exclusions that act
+    inside the oracle off for this case (the repro of an open finding must be able to
+    fail while generated cases stay clear of it)."""
+    global EXCLUDE_ARRAYSUB_SPAN
     parsers.setup()
-    text = case['text'] if 'text' in case else ''.join(case['pieces'])
-    fails, _ = verdict(text)
+    saved = EXCLUDE_ARRAYSUB_SPAN
+    if KEY_ARRAYSUB in (case.get('with_findings') or ()):
+        EXCLUDE_ARRAYSUB_SPAN = False
+    try:
+        fails, _ = evaluate(case)
+    finally:
+        EXCLUDE_ARRAYSUB_SPAN = saved
+        syntaximport.cleanup()
     return fails
 
 
@@ -200,6 +363,8 @@ def minimise(case, bucket):
     inside the property's domain (a grammar program, its layout variant, or one of them
     with a single corrupted token); deleting arbitrary tokens would not."""
     parsers.setup()
+    if case.get('files') is not None or case.get('alt'):
+        return case
 
     def fails_with(text):
         return any(b == bucket for b, _ in verdict(text)[0])
